@@ -14,6 +14,11 @@ CHECKS = {
    text="TLC exhaustively checks the stitching design of DefaultWriter/BytesWriter (delayed copy at Flush): stitch windows tile the final buffer, every handed-out region lies in its own window, regions are contiguous in order, sticky sink error, WrittenLen. The same actions validate recorded executions of the real writers (exhaustive histories <=3 ops + final Flush over boundary sizes, random histories, eager/lazy/re-filled regions with distinct content, sink failing at the k-th write, bytes targets nil/empty/partial/full): WriterAbs judges the bytes the sink received, WriterImpl binds len/cap/parked buffers.",
    note="Trusted: TLC, recording sink and per-region pattern recogniser of the harness, hook bufiox.VerifState. Bounds: MC <=4 (quick) / 5 (thorough) operations over sizes {0,1,4095,4096,4097,9000,20000}; traces up to 40/200 operations. A second flush cycle of a bytes writer is judged for errors/WrittenLen only.",
    design="6 C05, 4.2, App. C"),
+ "C09": dict(
+   technique="TLA+ ownership model (BufPool) checked by TLC + validation of pool-boundary traces of the real code over an instrumented pool double",
+   text="TLC checks that the grow-and-park/release/flush buffer life-cycles of the reader, bytes reader, writer, bytes writer and ReaderSkipDecoder keep the ownership invariants (no live slice in a pooled or co-tenant buffer, caller memory never pooled, no pool use when caching is disabled) under every interleaving with an adversarial co-tenant. Recorded executions of the real code over the pool double (every Malloc/Free as an event, poison-on-free, foreign/double free detection, co-tenant draining and scribbling every class between operations, every handed-out slice retained and re-compared) must be enabled BufPool actions (rules P1..P5).",
+   note="Trusted: TLC, the pool double's fidelity to mcache's contract, Go-side content comparison of retained slices and caller memory. A read-after-free that still sees the old bytes is visible only as an ownership-rule breach (free while live), not by content. Bounds: MC 3 pool buffers, 9 steps; traces: 3000 (quick) / 36000 (thorough) random histories.",
+   design="6 C09, App. C"),
 }
 NOT_YET = "check not built yet in this revision of /verif (work in progress; see DESIGN.md section 6 for the plan)"
 
